@@ -10,7 +10,12 @@ CONSTANTS
   BlockFirst = TRUE
   ApplyAtStart = TRUE
   Mix = TRUE
+  WriteFails = TRUE
+  EvictEarly = FALSE
   Rec = FALSE
+  KeyBinding = TRUE
+  SignerlessOK = FALSE
+  SkipIfSeen = FALSE
 INVARIANT Finish
 POSTCONDITION Consumed
 CHECK_DEADLOCK FALSE
